@@ -57,8 +57,24 @@ OPS = [
 ]
 
 
+# behaviour-preserving rewrites (--neutral): every check must stay silent on them
+NEUTRAL_OPS = [
+    (re.compile(r"(?<![\w\.\]\)])(\b[A-Za-z_]\w*\b) \+ (\b[A-Za-z_]\w*\b)(?![\w\(\[\.])(?= *[;\)\],])"), r"\2 + \1"),
+    (re.compile(r"(?<![\w\.\]\)/\*] )(?<![\w\.\]\)])(\b[A-Za-z_]\w*\b) \* (\b[A-Za-z_]\w*\b)(?![\w\(\[\.])(?= *[;\)\],+\-])"), r"\2 * \1"),
+    (re.compile(r"\((\b[A-Za-z_]\w*\b) < (\b[A-Za-z_]\w*\b)\)"), r"(\2 > \1)"),
+    (re.compile(r"\((\b[A-Za-z_]\w*\b) == (\b[A-Za-z_0-9]\w*\b)\)"), r"(\2 == \1)"),
+    (re.compile(r"^(\s*)(\b[A-Za-z_]\w*\b) \+= ([^;]+);(\s*(?://.*|/\*.*\*/\s*)?\\?)$"), r"\1\2 = \2 + (\3);\4"),
+    (re.compile(r"^(\s*)(\b[A-Za-z_]\w*\b) -= ([^;]+);(\s*(?://.*|/\*.*\*/\s*)?\\?)$"), r"\1\2 = \2 - (\3);\4"),
+    (re.compile(r"(\b[A-Za-z_]\w*\b)\+\+\)"), r"++\1)"),
+    (re.compile(r"\b0\.25 \* "), "(0.5 * 0.5) * "),
+    (re.compile(r"\b0\.5 \* \((\w+) \+ (\w+)\)"), r"((\1 + \2) * 0.5)"),
+]
+NEUTRAL = [False]
+
+
 def candidates(files):
     out = []
+    ops = NEUTRAL_OPS if NEUTRAL[0] else OPS
     for rel in files:
         lines = open(os.path.join(REPO, rel)).read().split("\n")
         in_block_comment = False
@@ -75,7 +91,7 @@ def candidates(files):
                 continue
             code = line.split("//")[0]
             code = re.sub(r"/\*.*?\*/", lambda m: " " * len(m.group(0)), code)
-            for oi, (rx, rep) in enumerate(OPS):
+            for oi, (rx, rep) in enumerate(ops):
                 for m in rx.finditer(code):
                     new = line[:m.start()] + rx.sub(rep, line[m.start():m.end()], count=1) + line[m.end():]
                     if new != line:
@@ -106,8 +122,10 @@ def worker(args):
             try:
                 r = subprocess.run([os.path.join(HERE, "check"), c, "--tier", tier], env=env, capture_output=True, text=True, timeout=900)
                 res[c] = r.returncode
-                if r.returncode == 1:
+                if r.returncode == 1 and not NEUTRAL[0]:
                     break
+                if r.returncode != 0 and NEUTRAL[0]:
+                    res[c + ":out"] = (r.stdout + r.stderr)[-600:]
             except subprocess.TimeoutExpired:
                 res[c] = "timeout"
     finally:
@@ -128,6 +146,8 @@ def main():
             seed = int(argv.pop(0))
         elif a == "-t":
             tier = argv.pop(0)
+        elif a == "--neutral":
+            NEUTRAL[0] = True
         else:
             subs.append(a)
     files = []
@@ -159,6 +179,10 @@ def main():
             for m in parts[j]:
                 out.append(worker((scratches[j], m, tier)))
                 mut, res = out[-1]
+                if NEUTRAL[0]:
+                    verdict = "ALARM" if 1 in res.values() else ("BROKEN" if 2 in res.values() else "silent")
+                    print("%-9s %s:%d  %s  ->  %s   %s" % (verdict, mut[0], mut[1] + 1, mut[2].strip()[:70], mut[3].strip()[:70], {k: v for k, v in res.items() if not k.endswith(":out")}), flush=True)
+                    continue
                 verdict = "caught" if 1 in res.values() else ("broken" if 2 in res.values() and 0 not in res.values() else ("SURVIVED" if res else "unmapped"))
                 print("%-9s %s:%d  %s  ->  %s   %s" % (verdict, mut[0], mut[1] + 1, mut[2].strip()[:70], mut[3].strip()[:70], res), flush=True)
             return out
@@ -166,6 +190,13 @@ def main():
             results = [r for part in ex.map(run_part, range(jobs)) for r in part]
     finally:
         shutil.rmtree(base, ignore_errors=True)
+    if NEUTRAL[0]:
+        alarms = [r for r in results if 1 in r[1].values()]
+        brk = [r for r in results if 1 not in r[1].values() and 2 in r[1].values()]
+        print("\n%d behaviour-preserving rewrites: %d silent, %d FALSE ALARMS, %d analysis-broken" % (len(results), len(results) - len(alarms) - len(brk), len(alarms), len(brk)))
+        for mut, res in alarms + brk:
+            print("%s %s:%d\n    - %s\n    + %s\n    %s" % ("ALARM" if 1 in res.values() else "BROKEN", mut[0], mut[1] + 1, mut[2].strip(), mut[3].strip(), {k: (v if not k.endswith(":out") else v[-400:]) for k, v in res.items()}))
+        return
     caught = [r for r in results if 1 in r[1].values()]
     broken = [r for r in results if 1 not in r[1].values() and 2 in r[1].values() and 0 not in r[1].values()]
     surv = [r for r in results if r not in caught and r not in broken]
